@@ -17,6 +17,17 @@ type genSite struct {
 	Seeds  []genSeed // expected queue seeds (anchors of the hubs that are valid, in-scope URLs)
 	Hubs   []string
 	shared []string // asset URLs shared between seeds
+	// maxRedirect is the run's --max-redirect: the target of the k-th redirect of a chain belongs to
+	// the tree only if k <= maxRedirect (0 = not known to the generator: no redirect obligations)
+	maxRedirect int
+}
+
+// hopExpect returns the obligation of the k-th (1-based) redirect of a chain.
+func (g *genSite) hopExpect(k int, target string) []string {
+	if k <= g.maxRedirect {
+		return []string{target}
+	}
+	return nil
 }
 
 type genSeed struct {
@@ -51,6 +62,39 @@ func htmlPage(title string, assets, anchors []string) []byte {
 	}
 	b.WriteString("</body></html>\n")
 	return []byte(b.String())
+}
+
+// expectOf turns the reference texts planted on a document of host h into the absolute URLs that
+// must be requested at least once in the run (references that are unparseable, unsupported, excluded
+// or loopback by construction are left out).
+func expectOf(h string, refs []string) []string {
+	var out []string
+	for _, s := range refs {
+		if i := strings.Index(s, "#"); i >= 0 {
+			s = s[:i]
+		}
+		switch {
+		case strings.HasPrefix(s, "http://127.0.0.1:"), strings.HasPrefix(s, "http://archive.org"), strings.HasPrefix(s, "http://nodot"), strings.HasPrefix(s, "http://["), strings.HasPrefix(s, "http://%"):
+		case strings.HasPrefix(s, "http://"):
+			out = append(out, s)
+		case strings.HasPrefix(s, "./"):
+			out = append(out, "http://"+h+s[1:]) // generated documents live in the root directory
+		case strings.HasPrefix(s, "/"):
+			out = append(out, "http://"+h+s)
+		}
+	}
+	return out
+}
+
+// writtenRefs keeps the reference forms the JSON / XML generators write into their documents.
+func writtenRefs(refs []string) []string {
+	var out []string
+	for _, s := range refs {
+		if strings.HasPrefix(s, "http") || strings.HasPrefix(s, "/") {
+			out = append(out, s)
+		}
+	}
+	return out
 }
 
 // addAssets creates n asset references for a page on host h; returns the reference texts.
@@ -98,7 +142,7 @@ func (g *genSite) addAssets(h string, n int, depth int) []string {
 			hops := 1 + g.rng.Intn(3)
 			for k := 0; k < hops; k++ {
 				next := fmt.Sprintf("/r/%d-%d.png", k, g.rng.Int63n(1<<40))
-				g.o.set(h, cur, &route{Status: pick2(g.rng, 301, 302), Headers: map[string]string{"Location": next}, Tag: "asset-redirect"})
+				g.o.set(h, cur, &route{Status: pick2(g.rng, 301, 302), Headers: map[string]string{"Location": next}, Tag: "asset-redirect", Expect: g.hopExpect(k+1, "http://"+h+next)})
 				cur = next
 			}
 			if g.rng.Intn(4) == 0 {
@@ -118,7 +162,7 @@ func (g *genSite) addAssets(h string, n int, depth int) []string {
 					parts = append(parts, fmt.Sprintf("%q", "http://"+h+s))
 				}
 			}
-			g.o.set(h, juri, &route{Status: 200, Headers: map[string]string{"Content-Type": "application/json"}, Body: []byte(`{"items":[` + strings.Join(parts, ",") + `],"n":1}`), Tag: "json"})
+			g.o.set(h, juri, &route{Status: 200, Headers: map[string]string{"Content-Type": "application/json"}, Body: []byte(`{"items":[` + strings.Join(parts, ",") + `],"n":1}`), Tag: "json", Expect: expectOf(h, writtenRefs(sub))})
 			refs = append(refs, "http://"+h+juri)
 		case x == 18 && depth < 3: // XML asset
 			xuri := strings.Replace(uri, ".png", ".xml", 1)
@@ -134,19 +178,21 @@ func (g *genSite) addAssets(h string, n int, depth int) []string {
 				}
 			}
 			sb.WriteString("</list>")
-			g.o.set(h, xuri, &route{Status: 200, Headers: map[string]string{"Content-Type": "application/xml"}, Body: []byte(sb.String()), Tag: "xml"})
+			g.o.set(h, xuri, &route{Status: 200, Headers: map[string]string{"Content-Type": "application/xml"}, Body: []byte(sb.String()), Tag: "xml", Expect: expectOf(h, writtenRefs(sub))})
 			refs = append(refs, "http://"+h+xuri)
 		case x == 19 && depth < 3: // M3U8 with segments
 			muri := strings.Replace(uri, ".png", ".m3u8", 1)
 			var sb strings.Builder
+			var segs []string
 			sb.WriteString("#EXTM3U\n#EXT-X-VERSION:3\n#EXT-X-TARGETDURATION:10\n")
 			for k := 0; k < 1+g.rng.Intn(3); k++ {
 				seg := fmt.Sprintf("/seg/%d-%d.ts", k, g.rng.Int63n(1<<40))
+				segs = append(segs, seg)
 				g.o.set(h, seg, g.leaf("segment"))
 				sb.WriteString("#EXTINF:9.0,\n" + seg + "\n")
 			}
 			sb.WriteString("#EXT-X-ENDLIST\n")
-			g.o.set(h, muri, &route{Status: 200, Headers: map[string]string{"Content-Type": "application/vnd.apple.mpegurl"}, Body: []byte(sb.String()), Tag: "m3u8"})
+			g.o.set(h, muri, &route{Status: 200, Headers: map[string]string{"Content-Type": "application/vnd.apple.mpegurl"}, Body: []byte(sb.String()), Tag: "m3u8", Expect: expectOf(h, segs)})
 			refs = append(refs, "http://"+h+muri)
 		default:
 			g.o.set(h, uri, g.leaf("leaf"))
@@ -173,7 +219,8 @@ func (g *genSite) addSeed() genSeed {
 		if g.rng.Intn(5) == 0 {
 			n = 0
 		}
-		return &route{Status: 200, Headers: map[string]string{"Content-Type": "text/html; charset=utf-8"}, Body: htmlPage(tag, g.addAssets(h, n, 1), nil), Tag: tag}
+		refs := g.addAssets(h, n, 1)
+		return &route{Status: 200, Headers: map[string]string{"Content-Type": "text/html; charset=utf-8"}, Body: htmlPage(tag, refs, nil), Tag: tag, Expect: expectOf(h, refs)}
 	}
 	switch x := g.rng.Intn(20); {
 	case x < 9:
@@ -195,13 +242,19 @@ func (g *genSite) addSeed() genSeed {
 		return genSeed{u, "fail-once"}
 	case x == 13 || x == 14: // redirect chain to a page
 		cur := uri
-		for k := 0; k < 1+g.rng.Intn(3); k++ {
+		nh := 1 + g.rng.Intn(3)
+		toRoot := g.rng.Intn(3) == 0 // the chain ends on the site root ("/", "http://host/" or "http://host")
+		for k := 0; k < nh; k++ {
 			next := fmt.Sprintf("/redir%d-%d.html", k, g.rng.Intn(100000))
 			loc := next
 			if g.rng.Intn(2) == 0 {
 				loc = "http://" + h + next
 			}
-			g.o.set(h, cur, &route{Status: pick2(g.rng, 301, 302), Headers: map[string]string{"Location": loc}, Tag: "seed-redirect"})
+			if toRoot && k == nh-1 {
+				next = "/"
+				loc = pick(g.rng, []string{"/", "http://" + h + "/", "http://" + h})
+			}
+			g.o.set(h, cur, &route{Status: pick2(g.rng, 301, 302), Headers: map[string]string{"Location": loc}, Tag: "seed-redirect", Expect: g.hopExpect(k+1, "http://"+h+next)})
 			cur = next
 		}
 		g.o.set(h, cur, page("page-after-redirect"))
